@@ -12,6 +12,7 @@ package dtls
 
 import (
 	"context"
+	"errors"
 	"hash"
 	"net"
 
@@ -67,10 +68,13 @@ func zzC19SeqForID(id ciphersuite.ID, custom func() []ciphersuite.CipherSuite) c
 	return &zzC19SeqSuite{id: id}
 }
 
+// zzC19ErrNet is what every read from the fake network returns (net.ErrClosed is nil in the engine: package net is not initialised).
+var zzC19ErrNet = errors.New("zzC19 net: nothing to read")
+
 type zzC19Net struct{ written [][]byte }
 
 func (n *zzC19Net) ReadFromContext(context.Context, []byte) (int, net.Addr, error) {
-	return 0, nil, net.ErrClosed
+	return 0, nil, zzC19ErrNet
 }
 func (n *zzC19Net) WriteToContext(_ context.Context, b []byte, a net.Addr) (int, error) {
 	n.written = append(n.written, append([]byte{}, b...))
